@@ -585,6 +585,7 @@ func (e *explorer) runPath(in *Interp, solver *Solver, item workItem) {
 	in.steps = 0
 	in.curFr = nil
 	in.mutexes = map[*Value]int{}
+	in.syncMaps = nil
 	ex.setModel(item.model)
 	status, msg := "ok", ""
 	func() {
